@@ -777,6 +777,73 @@ def cluster_introns_level():
     return n, bad
 
 
+def simplify_level(max_paths=3):
+    """IntronGraph.simplify (tips, bulges, singleton dead ends, isolated introns) on small graphs built from intron chains with
+       multiplicities: a main chain of four introns, variants of it with a similar second / third intron (bulges), truncated variants
+       (tips at either side) - every set of <= max_paths chains x multiplicities from (1, 2, 5, 12); the simplified graph of the mirror
+       image must be the mirror image (cases in which two similar introns are equally supported are left out: known finding)"""
+    import src.intron_graph as IG
+    from types import SimpleNamespace
+    L = 2000
+    I1, I2, I2b, I3, I3b, I4 = (100, 200), (300, 400), (312, 400), (500, 600), (500, 612), (700, 800)
+    chains = [[I1, I2, I3, I4], [I1, I2b, I3, I4], [I1, I2, I3b, I4], [I1, I2, I3b], [I2b, I3, I4], [I1, I2], [I3, I4], [I2, I3], [I3b]]
+    similar = [(I2, I2b), (I3, I3b)]
+    mi = lambda x: (L - x[1], L - x[0])
+    params = SimpleNamespace(graph_clustering_distance=20, graph_clustering_ratio=0.5, singleton_adjacent_cov=10,
+                             min_novel_isolated_intron_abs=3, min_novel_isolated_intron_rel=0.02, debug=False)
+
+    def run_(paths):
+        g = IG.IntronGraph.__new__(IG.IntronGraph)
+        g.params = params
+        c = IG.IntronCollector.__new__(IG.IntronCollector)
+        c.delta = 6
+        c.known_introns = set()
+        c.clustered_introns = collections.defaultdict(int)
+        c.intron_correction_map = {}
+        c.discarded_introns = set()
+        g.intron_collector = c
+        g.outgoing_edges = collections.defaultdict(set)
+        g.incoming_edges = collections.defaultdict(set)
+        g.edge_weights = collections.defaultdict(int)
+        for path, mult in paths:
+            for i in path:
+                c.clustered_introns[i] += mult
+        for path, mult in paths:
+            for a, b in zip(path, path[1:]):
+                g.add_edge(a, b)
+        g.simplify()
+        out = {k: set(v) for k, v in g.outgoing_edges.items() if v}
+        inc = {k: set(v) for k, v in g.incoming_edges.items() if v}
+        return dict((k, v) for k, v in c.clustered_introns.items() if v), out, inc, dict(c.intron_correction_map), set(c.discarded_introns)
+    bad = []
+    n = 0
+    for k in range(1, max_paths + 1):
+        for sel in itertools.combinations(range(len(chains)), k):
+            for mults in itertools.product((1, 2, 5, 12), repeat=k):
+                paths = [(chains[i], m) for i, m in zip(sel, mults)]
+                tot = collections.Counter()
+                for path, m in paths:
+                    for i in path:
+                        tot[i] += m
+                if any(tot[a] and tot[a] == tot[b] for a, b in similar):
+                    continue
+                n += 1
+                try:
+                    a = run_(paths)
+                    b = run_([([mi(i) for i in reversed(path)], m) for path, m in paths])
+                except Exception as e:  # noqa
+                    bad.append((paths, "simplify raised %r" % (e,)))
+                    continue
+                back = ({mi(i): c_ for i, c_ in b[0].items()}, {mi(i): set(mi(j) for j in v) for i, v in b[2].items()},
+                        {mi(i): set(mi(j) for j in v) for i, v in b[1].items()}, {mi(i): mi(j) for i, j in b[3].items()}, set(mi(i) for i in b[4]))
+                if a != back:
+                    what = [nm for nm, x, y in zip(("counts", "outgoing", "incoming", "substitutions", "discarded"), a, back) if x != y]
+                    bad.append((paths, "chains %s: the simplified graph of the mirror image is not the mirror image (%s differ): %s vs %s" %
+                                (paths, ", ".join(what), [a[("counts", "outgoing", "incoming", "substitutions", "discarded").index(w)] for w in what][:1],
+                                 [back[("counts", "outgoing", "incoming", "substitutions", "discarded").index(w)] for w in what][:1])))
+    return n, bad
+
+
 def thread_ends_level():
     """IntronPathProcessor.thread_ends vs thread_starts on mirrored graphs: last intron (100,200) with every subset of terminal vertices
        out of two polyA and two read-end positions, with / without a following intron, every read end on a grid, trusted or not"""
@@ -836,6 +903,13 @@ def run(ctx):
         ctx.violation("l0:tail-clusters-%s" % ("order-dependent" if kind_ == "order" else "not-mirrored"), msg,
                       {"positions": list(case_[0]), "counts": list(case_[1]), "annotated_end": case_[2]})
     ctx.note("L0 tail clusters: %d (positions, counts, annotated end, insertion order) cases through the real cluster_polya_positions" % n_cp)
+    n_sg, bad_sg = simplify_level(2 if quick else 3)
+    for kind_ in ("discarded", "other"):
+        sel = [b for b in bad_sg if ("(discarded differ)" in b[1]) == (kind_ == "discarded")]
+        for paths, msg in sel[:2]:
+            ctx.violation("l0:simplify-not-mirrored" + (":discarded-only" if kind_ == "discarded" else ""), msg,
+                          {"chains": [[[list(i) for i in path], m] for path, m in paths]})
+    ctx.note("L0 graph simplification: %d sets of intron chains through the real IntronGraph.simplify, input vs mirror image" % n_sg)
     n_ci, bad_ci = cluster_introns_level()
     for kind_ in ("tie", "other"):
         for k_, case_, msg in [b for b in bad_ci if b[0] == kind_][:2]:
